@@ -188,6 +188,8 @@ fn main() {
     "keys" => keyprobe::run(&args[2]),
     "stampsrc" => stampsrc::run(),
     "wabort" => wabort::run(),
+    "flaky" => flaky::run(),
+    "lossy" => lossy::run(),
     x => panic!("unknown probe {}", x),
   }
 }
@@ -693,6 +695,102 @@ mod wabort {
                    res.as_ref().err().map(|e| panic_message(e).chars().take(16).collect::<String>().replace(' ', "_")).unwrap_or_default(), before, after);
         }
       }
+    }
+    println!("#");
+  }
+}
+
+// ------------------------------------------------------------------ a checker that fails intermittently (C18)
+// The checker fails its next N checks and works again afterwards.  EVERY failure is reported and counts as "inconsistent":
+// the owner is re-executed (top-down) / scheduled and executed (bottom-up), whatever a second attempt would have answered.
+mod flaky {
+  use std::cell::Cell;
+  use std::fmt::Debug;
+  use pie::resource::map::{GetGlobalMap, MapKey};
+  use pie::{Context, Pie, Resource, ResourceChecker, ResourceState, Task};
+  use verif_harness::dsl::FailErr;
+
+  thread_local! { static FAILS: Cell<u32> = Cell::new(0); static EXECS: Cell<u32> = Cell::new(0); static CHECKS: Cell<u32> = Cell::new(0); }
+  #[derive(Clone, PartialEq, Eq, Hash, Debug)] pub struct Slot(pub u32);
+  impl MapKey for Slot { type Value = i64; }
+  #[derive(Clone, Copy, PartialEq, Eq, Hash, Debug)] pub struct Hiccup;
+  impl ResourceChecker<Slot> for Hiccup {
+    type Stamp = Option<i64>;
+    type Error = FailErr;
+    fn stamp<RS: ResourceState<Slot>>(&self, r: &Slot, s: &mut RS) -> Result<Option<i64>, FailErr> { Ok(r.read(s).unwrap().copied()) }
+    fn stamp_reader(&self, _r: &Slot, reader: &mut Option<&i64>) -> Result<Option<i64>, FailErr> { Ok(reader.copied()) }
+    fn stamp_writer(&self, _r: &Slot, w: pie::resource::map::MapWriter<'_, Slot>) -> Result<Option<i64>, FailErr> { Ok(w.get().copied()) }
+    fn check<RS: ResourceState<Slot>>(&self, r: &Slot, s: &mut RS, stamp: &Option<i64>) -> Result<Option<impl Debug>, FailErr> {
+      CHECKS.with(|c| c.set(c.get() + 1));
+      if FAILS.with(|f| f.get()) > 0 { FAILS.with(|f| f.set(f.get() - 1)); return Err(FailErr(77)); }
+      let now = r.read(s).unwrap().copied();
+      Ok(if now != *stamp { Some(now) } else { None })
+    }
+    fn wrap_error(&self, e: std::convert::Infallible) -> FailErr { match e {} }
+  }
+  #[derive(Clone, PartialEq, Eq, Hash, Debug)] pub struct ReadSlot(pub u32);
+  impl Task for ReadSlot {
+    type Output = Option<i64>;
+    fn execute<C: Context>(&self, c: &mut C) -> Option<i64> { EXECS.with(|e| e.set(e.get() + 1)); c.read(&Slot(self.0), Hiccup).unwrap().copied() }
+  }
+  pub fn run() {
+    for ctx in ["td", "bu"] {
+      for fails in [1u32, 2] {
+        let mut pie: Pie<()> = Pie::default();
+        pie.resource_state_mut::<Slot>().get_global_map_mut().insert(Slot(1), 5);
+        pie.new_session().require(&ReadSlot(1));
+        EXECS.with(|e| e.set(0)); CHECKS.with(|c| c.set(0)); FAILS.with(|f| f.set(fails));
+        let errs = {
+          let mut s = pie.new_session();
+          if ctx == "td" { s.require(&ReadSlot(1)); } else { let mut b = s.create_bottom_up_build(); b.schedule_tasks_affected_by(&Slot(1)); b.update_affected_tasks(); }
+          s.dependency_check_errors().map(|e| format!("{}", e)).collect::<Vec<_>>().join(",")
+        };
+        println!("flaky ctx={} armed={} errs=[{}] execs={} checks={} left={}", ctx, fails, errs, EXECS.with(|e| e.get()), CHECKS.with(|c| c.get()), FAILS.with(|f| f.get()));
+        FAILS.with(|f| f.set(0));
+      }
+    }
+    println!("#");
+  }
+}
+
+// ------------------------------------------------------------------ an output type whose Debug text hides differences (C03, C09, C12)
+// Equality of outputs is Eq.  A requirer with the equality checker is affected whenever the required output is != its stamp, also
+// when both print alike.
+mod lossy {
+  use std::cell::Cell;
+  use std::fmt::{Debug, Formatter};
+  use pie::resource::map::{GetGlobalMap, MapEqualsChecker, MapKey};
+  use pie::task::EqualsChecker;
+  use pie::{Context, Pie, Task};
+
+  thread_local! { static UP: Cell<u32> = Cell::new(0); }
+  #[derive(Clone, PartialEq, Eq, Hash, Debug)] pub struct Slot(pub u32);
+  impl MapKey for Slot { type Value = i64; }
+  #[derive(Clone, PartialEq, Eq)] pub struct Lossy(pub i64);
+  impl Debug for Lossy { fn fmt(&self, f: &mut Formatter<'_>) -> std::fmt::Result { write!(f, "Lossy(..)") } }     // every value prints alike
+  #[derive(Clone, PartialEq, Eq, Hash, Debug)] pub struct Src(pub u32);
+  impl Task for Src {
+    type Output = Lossy;
+    fn execute<C: Context>(&self, c: &mut C) -> Lossy { Lossy(c.read(&Slot(self.0), MapEqualsChecker).unwrap().copied().unwrap_or(0)) }
+  }
+  #[derive(Clone, PartialEq, Eq, Hash, Debug)] pub struct Up(pub u32);
+  impl Task for Up {
+    type Output = i64;
+    fn execute<C: Context>(&self, c: &mut C) -> i64 { UP.with(|u| u.set(u.get() + 1)); c.require(&Src(self.0), EqualsChecker).0 * 2 }
+  }
+  fn set(pie: &mut Pie<()>, v: i64) { pie.resource_state_mut::<Slot>().get_global_map_mut().insert(Slot(1), v); }
+  pub fn run() {
+    for ctx in ["td", "bu"] {
+      let mut pie: Pie<()> = Pie::default();
+      set(&mut pie, 1);
+      let first = pie.new_session().require(&Up(1));
+      set(&mut pie, 2);
+      UP.with(|u| u.set(0));
+      if ctx == "bu" { let mut s = pie.new_session(); let mut b = s.create_bottom_up_build(); b.schedule_tasks_affected_by(&Slot(1)); b.update_affected_tasks(); }
+      let in_build = UP.with(|u| u.get());
+      let out = pie.new_session().require(&Up(1));
+      let total = UP.with(|u| u.get());
+      println!("lossy ctx={} first={} out={} up_execs_in_bottom_up={} up_execs_total={}", ctx, first, out, in_build, total);
     }
     println!("#");
   }
